@@ -169,6 +169,56 @@ theorem run {P : Ev → Prop} {q : Q α} (hq : LogSafe P q) (script : List ConnS
 end LogSafe
 
 
+/-- a computation on a socket it has just opened, with the event predicate allowed to mention the socket's
+number: `QSafe` for that socket gives crash freedom and log conformance of the whole from any state -/
+theorem openThen_safe (tcp : Bool) (port : Nat) {f : Sock → Q α} (P : Nat → Ev → Prop)
+    (hopen : ∀ id r, P id (.opened id tcp port r))
+    (hf : ∀ s : Sock, s.port = port → s.tcp = tcp → QSafe s (P s.id) (f s)) (w : Net) :
+    ((openSock tcp port >>= f) w).1 ≠ .crash
+    ∧ ∃ added, ((openSock tcp port >>= f) w).2.log = w.log ++ added ∧ ∀ e ∈ added, P w.conns.length e := by
+  rw [Q.bind_apply]
+  have fin : ∀ (w0 : Net) (ev : Ev), w0.log = w.log ++ [ev] → P w.conns.length ev →
+      IsOpen ⟨w.conns.length, port, tcp⟩ w0 →
+      (f ⟨w.conns.length, port, tcp⟩ w0).1 ≠ .crash
+      ∧ ∃ added, (f ⟨w.conns.length, port, tcp⟩ w0).2.log = w.log ++ added ∧ ∀ e ∈ added, P w.conns.length e := by
+    intro w0 ev hlog0 hev hop
+    obtain ⟨h1, h2⟩ := hf ⟨w.conns.length, port, tcp⟩ rfl rfl w0 hop
+    obtain ⟨added, hlog, hall⟩ := h2.log
+    refine ⟨h1, ev :: added, by rw [hlog, hlog0]; simp, ?_⟩
+    intro e he
+    rcases List.mem_cons.mp he with rfl | he'
+    · exact hev
+    · exact hall e he'
+  cases hp : w.pending with
+  | nil =>
+    simp only [openSock, hp]
+    exact fin _ _ rfl (hopen _ _) (by simp [IsOpen])
+  | cons c rest =>
+    cases c with
+    | opened ds =>
+      simp only [openSock, hp]
+      exact fin _ _ rfl (hopen _ _) (by simp [IsOpen])
+    | refused =>
+      simp only [openSock, hp]
+      refine ⟨by simp, [_], rfl, ?_⟩
+      intro e he
+      rcases List.mem_singleton.mp he with rfl
+      exact hopen _ _
+
+/-- from the initial state the socket is number 0 -/
+theorem openThen_run (tcp : Bool) (port : Nat) {f : Sock → Q α} (P : Nat → Ev → Prop)
+    (hopen : ∀ id r, P id (.opened id tcp port r))
+    (hf : ∀ s : Sock, s.port = port → s.tcp = tcp → QSafe s (P s.id) (f s))
+    (script : List ConnScript) (faults : List Bool) :
+    ((openSock tcp port >>= f) (Net.init script faults)).1 ≠ .crash
+    ∧ ∀ e ∈ ((openSock tcp port >>= f) (Net.init script faults)).2.log, P 0 e := by
+  obtain ⟨h1, added, hlog, hall⟩ := openThen_safe tcp port P hopen hf (Net.init script faults)
+  refine ⟨h1, ?_⟩
+  intro e he
+  rw [hlog] at he
+  simp only [Net.init, List.nil_append] at he
+  simpa [Net.init] using hall e he
+
 /-! ### counting sends -/
 
 def Ev.isSend : Ev → Bool
